@@ -167,7 +167,7 @@ class Monitor:
             exc = proc.exception()
             return (type(exc).__name__, str(exc)[:80], id(exc))
         if state == 'finished':
-            return (repr(proc.result()), proc.successful())
+            return (repr(programs.freeze(proc.result())), proc.successful())
         if state == 'killed':
             return repr(proc.killed_msg())
         return None
